@@ -20,21 +20,24 @@ def _funcs():
     return [i.loads, i._iso8583_to_dict, i._iso8583_to_field, i._string_to_pytype, i._get_field_length, i._pds_to_dict, i._icc_to_dict]
 
 
-def framing(pick, enc, hexbm, nmax, sub=True, bit1=True):
+def framing(pick, enc, hexbm, nmax, sub=True, bit1=True, cfgs=None):
+    cfgs_given = cfgs
+
     def h():
         core.FUEL.set(nmax + 10)
         iso = M().iso8583
         bits = list(pick())
-        cfgs = bit_config()
+        custom = cfgs_given
+        cfgs = custom or bit_config()
         msg, data, src = abstract_message(bits, enc, hexbm, nmax, bit1=bit1)
 
         def rp():
-            return {'kind': 'loads', 'args': {'data': witness_bytes(msg), 'enc': enc, 'hexbm': hexbm}}
+            return {'kind': 'loads', 'args': {'data': witness_bytes(msg), 'enc': enc, 'hexbm': hexbm, 'cfg': custom}}
         core.set_fallback(rp, 'C08/concretised')
         d = None
         err = None
         try:
-            d = iso.loads(msg, encoding=enc, hex_bitmap=hexbm)
+            d = iso.loads(msg, encoding=enc, hex_bitmap=hexbm, iso_config=custom)
         except iso.Iso8583DataError as e:
             err = e
         except core.ControlFlow:
@@ -98,6 +101,14 @@ def short_header(enc, hexbm):
     return h
 
 
+# a caller-supplied configuration whose dictionary keys are not in ascending numeric order (an entry added later; JSON with sorted string keys)
+UNORDERED = {k: v for k, v in [
+    ('3', {'field_type': 'FIXED', 'field_length': 6}), ('14', {'field_type': 'FIXED', 'field_length': 4}),
+    ('38', {'field_type': 'FIXED', 'field_length': 6}), ('100', {'field_type': 'LLVAR', 'field_length': 0}),
+    ('2', {'field_type': 'LLVAR', 'field_length': 0}), ('7', {'field_type': 'FIXED', 'field_length': 10}),
+    ('4', {'field_type': 'FIXED', 'field_length': 12, 'field_python_type': 'int'})]}
+
+
 def obligations(tier):
     q = tier == 'quick'
     singles, pairs, triples = bit_families(q)
@@ -113,6 +124,9 @@ def obligations(tier):
     for enc, hexbm in (('latin_1', False), ('cp500', True)):
         obs.append(Ob('short-header/%s/%s' % (enc, 'hex' if hexbm else 'bin'), short_header(enc, hexbm), 300,
                       'every input of 0..%d bytes (shorter than MTI + bitmap), arbitrary content' % ((36 if hexbm else 20) - 1), _funcs))
+    upairs = [[3, 7], [7, 14], [2, 3], [2, 100], [4, 38], [3, 7, 14]]
+    obs.append(Ob('unordered-config/latin_1', framing(lambda: choose('bits', upairs), 'latin_1', False, 22, sub=False, cfgs=UNORDERED), 600,
+                  'caller-supplied configuration whose keys are not in numeric order: element groups %s, data 0..22' % upairs, _funcs))
     obs.append(Ob('bit1-clear/latin_1', framing(lambda: choose('bits', [[2, 71], [63, 71], [93, 94], [3, 127], [65 - 2, 66 + 5]]), 'latin_1', False, 20, sub=False, bit1=False), 600,
                   'incoming bitmaps with bit 1 clear and elements above 64 flagged (the bitmap is always 16 bytes): framing must not depend on bit 1', _funcs))
     obs.append(Ob('triples/latin_1', framing(lambda: choose('bits', triples), 'latin_1', False, 16 if q else 26, sub=False), 900,
